@@ -326,3 +326,296 @@ theorem keepsYF_insertForms (norm : String → String) (l : Lexicon) (c : Ctx) :
   keepsYF_fold _ (keepsY_entryFormsStep norm c) _
 
 end WnVerif.Db
+
+namespace WnVerif.Db
+open WnVerif WnVerif.Doc
+
+/-! ### steps that run after the sense rows are written leave `senses`, `entries`, `synsets` alone -/
+
+def KeepsS {α} (f : Db → α → R Db) : Prop :=
+  ∀ b a b', f b a = .ok b' → b'.senses = b.senses ∧ b'.entries = b.entries ∧ b'.synsets = b.synsets
+def KeepsSF (f : Db → R Db) : Prop :=
+  ∀ b b', f b = .ok b' → b'.senses = b.senses ∧ b'.entries = b.entries ∧ b'.synsets = b.synsets
+
+theorem fold_keepsS {α} (f : Db → α → R Db) (hf : KeepsS f) : KeepsS (fun db (l : List α) => l.foldlM f db) := by
+  intro b l b' h
+  refine foldlM_ok_induct f (fun _ b b' => b'.senses = b.senses ∧ b'.entries = b.entries ∧ b'.synsets = b.synsets) ?_ ?_ l b b' h
+  · intro b; exact ⟨rfl, rfl, rfl⟩
+  · intro a t b b1 b' h1 _ ih
+    obtain ⟨e1, e2, e3⟩ := hf b a b1 h1
+    exact ⟨ih.1.trans e1, ih.2.1.trans e2, ih.2.2.trans e3⟩
+
+theorem keepsSF_bind (f g : Db → R Db) (hf : KeepsSF f) (hg : KeepsSF g) : KeepsSF (fun b => f b >>= g) := by
+  intro b b' h
+  simp only [bind, Except.bind] at h
+  cases h1 : f b with
+  | error e => rw [h1] at h; simp at h
+  | ok b1 =>
+    rw [h1] at h
+    obtain ⟨a1, a2, a3⟩ := hf b b1 h1
+    obtain ⟨c1, c2, c3⟩ := hg b1 b' h
+    exact ⟨c1.trans a1, c2.trans a2, c3.trans a3⟩
+
+theorem keepsSF_fold {α} (f : Db → α → R Db) (hf : KeepsS f) (l : List α) : KeepsSF (fun b => l.foldlM f b) :=
+  fun b b' h => fold_keepsS f hf b l b' h
+
+theorem keepsS_nested {α β} (items : α → List β) (f : α → Db → β → R Db) (hf : ∀ a, KeepsS (f a)) :
+    KeepsS (fun db a => (items a).foldlM (f a) db) :=
+  fun b a b' h => fold_keepsS (f a) (hf a) b (items a) b' h
+
+macro "keepsS_step" d:ident : tactic =>
+  `(tactic| (
+     intro b a b2 h
+     unfold $d at h
+     simp only [bind, Except.bind, need, pure, Except.pure] at h
+     repeat' (split at h)
+     all_goals first
+       | (simp only [Except.ok.injEq] at h; subst h; exact ⟨rfl, rfl, rfl⟩)
+       | (simp [throw, throwThe, MonadExcept.throw] at h)))
+
+theorem keepsS_adjStep (c : Ctx) : KeepsS (adjStep c) := by keepsS_step adjStep
+theorem keepsS_countStep (c : Ctx) (s : Sense) : KeepsS (countStep c s) := by keepsS_step countStep
+theorem keepsS_sbStep (c : Ctx) : KeepsS (sbStep c) := by keepsS_step sbStep
+theorem keepsS_sbSenseStep (c : Ctx) (sb : Sb) : KeepsS (sbSenseStep c sb) := by keepsS_step sbSenseStep
+theorem keepsS_synRelStep (c : Ctx) (ss : Synset) : KeepsS (synRelStep c ss) := by keepsS_step synRelStep
+theorem keepsS_senseRelStep (c : Ctx) : KeepsS (senseRelStep c) := by keepsS_step senseRelStep
+theorem keepsS_senseSynRelStep (c : Ctx) : KeepsS (senseSynRelStep c) := by keepsS_step senseSynRelStep
+theorem keepsS_defStep (c : Ctx) (ss : Synset) : KeepsS (defStep c ss) := by keepsS_step defStep
+theorem keepsS_senseExampleStep (c : Ctx) (s : Sense) : KeepsS (senseExampleStep c s) := by keepsS_step senseExampleStep
+theorem keepsS_synsetExampleStep (c : Ctx) (ss : Synset) : KeepsS (synsetExampleStep c ss) := by keepsS_step synsetExampleStep
+
+theorem keepsSF_insertSbs (sbs : List Sb) (c : Ctx) : KeepsSF (fun b => insertSbs b sbs c) := by
+  unfold insertSbs
+  apply keepsSF_bind
+  · exact keepsSF_fold _ (keepsS_sbStep c) sbs
+  · apply keepsSF_fold
+    exact keepsS_nested (fun (sb : Sb) => sb.senses) (fun sb => sbSenseStep c sb) (fun sb => keepsS_sbSenseStep c sb)
+
+theorem keepsSF_insertDefsExamples (l : Lexicon) (c : Ctx) : KeepsSF (fun b => insertDefsExamples b l c) := by
+  unfold insertDefsExamples
+  apply keepsSF_bind
+  · apply keepsSF_fold
+    exact keepsS_nested (fun (ss : Synset) => ss.definitions) (fun ss => defStep c ss) (fun ss => keepsS_defStep c ss)
+  · apply keepsSF_bind
+    · apply keepsSF_fold
+      apply keepsS_nested (fun (e : Entry) => e.senses) (fun _ db s => s.examples.foldlM (senseExampleStep c s) db)
+      intro _
+      exact fun b s b' h => fold_keepsS _ (keepsS_senseExampleStep c s) b s.examples b' h
+    · apply keepsSF_fold
+      exact keepsS_nested (fun (ss : Synset) => ss.examples) (fun ss => synsetExampleStep c ss) (fun ss => keepsS_synsetExampleStep c ss)
+
+theorem keepsSF_insertRelations (l : Lexicon) (c : Ctx) : KeepsSF (fun b => insertRelations b l c) := by
+  intro b b' h
+  unfold insertRelations at h
+  simp only [bind, Except.bind] at h
+  cases h1 : l.synsets.foldlM (fun db ss => ss.relations.foldlM (synRelStep c ss) db) b with
+  | error e => rw [h1] at h; simp at h
+  | ok b1 =>
+    rw [h1] at h
+    have k1 := keepsSF_fold _ (keepsS_nested (fun (ss : Synset) => ss.relations) (fun ss => synRelStep c ss) (fun ss => keepsS_synRelStep c ss)) l.synsets b b1 h1
+    simp only at h
+    split at h
+    · simp [throw, throwThe, MonadExcept.throw] at h
+    · cases h2 : List.foldlM (senseRelStep c) b1 ((allSenseRels l).filter (fun p => (l.entries.flatMap (fun e => e.senses.map (·.id))).contains p.2.target)) with
+      | error e => rw [h2] at h; simp at h
+      | ok b2 =>
+        rw [h2] at h
+        have k2 := keepsSF_fold _ (keepsS_senseRelStep c) _ b1 b2 h2
+        have k3 := keepsSF_fold _ (keepsS_senseSynRelStep c) _ b2 b' h
+        exact ⟨k3.1.trans (k2.1.trans k1.1), k3.2.1.trans (k2.2.1.trans k1.2.1), k3.2.2.trans (k2.2.2.trans k1.2.2)⟩
+
+/-- the second and third loop of `_insert_senses` (adjpositions, counts) -/
+theorem keepsSF_adjCounts (l : Lexicon) (c : Ctx) : KeepsSF (fun b => (do
+    let db2 ← l.entries.foldlM (fun db e => (localSenses e).foldlM (adjStep c) db) b
+    l.entries.foldlM (fun db e => e.senses.foldlM (fun db s => s.counts.foldlM (countStep c s) db) db) db2)) := by
+  apply keepsSF_bind
+  · apply keepsSF_fold
+    exact keepsS_nested (fun e => localSenses e) (fun _ => adjStep c) (fun _ => keepsS_adjStep c)
+  · apply keepsSF_fold
+    apply keepsS_nested (fun (e : Entry) => e.senses) (fun _ db s => s.counts.foldlM (countStep c s) db)
+    intro _
+    exact fun b s b' h => fold_keepsS _ (keepsS_countStep c s) b s.counts b' h
+
+end WnVerif.Db
+
+namespace WnVerif.Db
+open WnVerif WnVerif.Doc
+
+/-! ### steps that run before `_insert_senses` leave the `senses` table alone -/
+
+def KeepsN {α} (f : Db → α → R Db) : Prop := ∀ b a b', f b a = .ok b' → b'.senses = b.senses
+def KeepsNF (f : Db → R Db) : Prop := ∀ b b', f b = .ok b' → b'.senses = b.senses
+
+theorem fold_keepsN {α} (f : Db → α → R Db) (hf : KeepsN f) : KeepsN (fun db (l : List α) => l.foldlM f db) := by
+  intro b l b' h
+  refine foldlM_ok_induct f (fun _ b b' => b'.senses = b.senses) ?_ ?_ l b b' h
+  · intro b; rfl
+  · intro a t b b1 b' h1 _ ih
+    exact ih.trans (hf b a b1 h1)
+
+theorem keepsNF_bind (f g : Db → R Db) (hf : KeepsNF f) (hg : KeepsNF g) : KeepsNF (fun b => f b >>= g) := by
+  intro b b' h
+  simp only [bind, Except.bind] at h
+  cases h1 : f b with
+  | error e => rw [h1] at h; simp at h
+  | ok b1 =>
+    rw [h1] at h
+    exact (hg b1 b' h).trans (hf b b1 h1)
+
+theorem keepsNF_fold {α} (f : Db → α → R Db) (hf : KeepsN f) (l : List α) : KeepsNF (fun b => l.foldlM f b) :=
+  fun b b' h => fold_keepsN f hf b l b' h
+
+theorem keepsN_nested {α β} (items : α → List β) (f : α → Db → β → R Db) (hf : ∀ a, KeepsN (f a)) :
+    KeepsN (fun db a => (items a).foldlM (f a) db) :=
+  fun b a b' h => fold_keepsN (f a) (hf a) b (items a) b' h
+
+macro "keepsN_step" d:ident : tactic =>
+  `(tactic| (
+     intro b a b2 h
+     unfold $d at h
+     simp only [bind, Except.bind, need, pure, Except.pure] at h
+     repeat' (split at h)
+     all_goals first
+       | (simp only [Except.ok.injEq] at h; subst h; rfl)
+       | (simp [throw, throwThe, MonadExcept.throw] at h)))
+
+theorem keepsN_presupStep (p : Nat) : KeepsN (presupStep p) := by keepsN_step presupStep
+theorem keepsN_synsetStep (c : Ctx) : KeepsN (synsetStep c) := by keepsN_step synsetStep
+theorem keepsN_piliStep (c : Ctx) : KeepsN (piliStep c) := by keepsN_step piliStep
+theorem keepsN_entryStep (c : Ctx) : KeepsN (entryStep c) := by keepsN_step entryStep
+theorem keepsN_pronStep (c : Ctx) (e : Entry) (fid : Option String) (rank : Option Nat) : KeepsN (pronStep c e fid rank) := by keepsN_step pronStep
+theorem keepsN_tagStep (c : Ctx) (e : Entry) (fid : Option String) (rank : Option Nat) : KeepsN (tagStep c e fid rank) := by keepsN_step tagStep
+
+theorem addForm_keepsN (db db1 : Db) (norm : String → String) (lexid er : Nat) (id : Option String) (form : String)
+    (script : Option String) (rank : Nat) (h : addForm db norm lexid er id form script rank = .ok db1) : db1.senses = db.senses := by
+  unfold addForm at h
+  simp only [bind, Except.bind, pure, Except.pure] at h
+  split at h
+  · simp [throw, throwThe, MonadExcept.throw] at h
+  · simp only [Except.ok.injEq] at h; subst h; rfl
+
+theorem keepsN_formStep (norm : String → String) (c : Ctx) (e : Entry) : KeepsN (formStep norm c e) := by
+  intro b fi b' h
+  unfold formStep at h
+  split at h
+  · simp only [Except.ok.injEq] at h; subst h; rfl
+  · cases he : entryRow b e.id (c.lid e.id) with
+    | none => simp [he, need, bind, Except.bind] at h
+    | some er =>
+      simp only [he, need, bind, Except.bind] at h
+      exact addForm_keepsN _ _ _ _ _ _ _ _ _ h
+
+theorem keepsN_entryFormsStep (norm : String → String) (c : Ctx) : KeepsN (entryFormsStep norm c) := by
+  intro b e b' h
+  unfold entryFormsStep at h
+  simp only [bind, Except.bind] at h
+  cases hx : e.external with
+  | true =>
+    simp only [hx, Bool.not_true, Bool.false_eq_true, if_false, pure, Except.pure] at h
+    exact fold_keepsN _ (keepsN_formStep norm c e) b e.forms.zipIdx b' h
+  | false =>
+    simp only [hx, Bool.not_false, if_true] at h
+    cases hl : e.lemma with
+    | none => simp [hl, need] at h
+    | some lem =>
+      simp only [hl, need] at h
+      cases he : entryRow b e.id (c.lid e.id) with
+      | none => simp [he] at h
+      | some er =>
+        simp only [he] at h
+        cases ha : addForm b norm c.lexid er none lem.form lem.script 0 with
+        | error x => simp [ha] at h
+        | ok b1 =>
+          simp only [ha] at h
+          exact (fold_keepsN _ (keepsN_formStep norm c e) b1 e.forms.zipIdx b' h).trans (addForm_keepsN _ _ _ _ _ _ _ _ _ ha)
+
+theorem keepsNF_insertSynsets (l : Lexicon) (c : Ctx) : KeepsNF (fun b => insertSynsets b l c) := by
+  intro b b' h
+  unfold insertSynsets at h
+  simp only [bind, Except.bind] at h
+  cases hp : need "ili status" (lookupId b.ilistatuses "presupposed") with
+  | error e => rw [hp] at h; simp at h
+  | ok presup =>
+    rw [hp] at h
+    simp only at h
+    exact keepsNF_bind _ _ (keepsNF_fold _ (keepsN_presupStep presup) _)
+      (keepsNF_bind _ _ (keepsNF_fold _ (keepsN_synsetStep c) _) (keepsNF_fold _ (keepsN_piliStep c) _)) b b' h
+
+theorem keepsNF_insertEntries (l : Lexicon) (c : Ctx) : KeepsNF (fun b => insertEntries b l c) :=
+  keepsNF_fold _ (keepsN_entryStep c) _
+theorem keepsNF_insertForms (norm : String → String) (l : Lexicon) (c : Ctx) : KeepsNF (fun b => insertForms b norm l c) :=
+  keepsNF_fold _ (keepsN_entryFormsStep norm c) _
+
+theorem keepsNF_insertPronsTags (l : Lexicon) (c : Ctx) : KeepsNF (fun b => insertPronsTags b l c) := by
+  unfold insertPronsTags
+  apply keepsNF_bind
+  · apply keepsNF_fold
+    apply keepsN_nested (fun e => formLikes e) (fun e db fl => fl.2.2.1.foldlM (pronStep c e fl.1 fl.2.1) db)
+    intro e
+    exact fun b fl b' h => fold_keepsN _ (keepsN_pronStep c e fl.1 fl.2.1) b fl.2.2.1 b' h
+  · apply keepsNF_fold
+    apply keepsN_nested (fun e => formLikes e) (fun e db fl => fl.2.2.2.foldlM (tagStep c e fl.1 fl.2.1) db)
+    intro e
+    exact fun b fl b' h => fold_keepsN _ (keepsN_tagStep c e fl.1 fl.2.1) b fl.2.2.2 b' h
+
+end WnVerif.Db
+
+namespace WnVerif.Db
+open WnVerif WnVerif.Doc
+
+/-- `_insert_forms` never touches the `entries` table (external entries included) -/
+theorem addForm_entries (db db1 : Db) (norm : String → String) (lexid er : Nat) (id : Option String) (form : String)
+    (script : Option String) (rank : Nat) (h : addForm db norm lexid er id form script rank = .ok db1) : db1.entries = db.entries := by
+  unfold addForm at h
+  simp only [bind, Except.bind, pure, Except.pure] at h
+  split at h
+  · simp [throw, throwThe, MonadExcept.throw] at h
+  · simp only [Except.ok.injEq] at h; subst h; rfl
+
+theorem formStep_entries (norm : String → String) (c : Ctx) (e : Entry) (b b' : Db) (fi : Form × Nat)
+    (h : formStep norm c e b fi = .ok b') : b'.entries = b.entries := by
+  unfold formStep at h
+  split at h
+  · simp only [Except.ok.injEq] at h; subst h; rfl
+  · cases he : entryRow b e.id (c.lid e.id) with
+    | none => simp [he, need, bind, Except.bind] at h
+    | some er =>
+      simp only [he, need, bind, Except.bind] at h
+      exact addForm_entries _ _ _ _ _ _ _ _ _ h
+
+theorem insertForms_entries (norm : String → String) (l : Lexicon) (c : Ctx) (d d' : Db)
+    (h : insertForms d norm l c = .ok d') : d'.entries = d.entries := by
+  unfold insertForms at h
+  refine foldlM_ok_induct (entryFormsStep norm c) (fun _ b b' => b'.entries = b.entries) ?_ ?_ _ d d' h
+  · intro b; rfl
+  · intro e t b b1 b' hf _ ih
+    refine ih.trans ?_
+    unfold entryFormsStep at hf
+    simp only [bind, Except.bind] at hf
+    have hfold : ∀ (x x' : Db), e.forms.zipIdx.foldlM (formStep norm c e) x = .ok x' → x'.entries = x.entries := by
+      intro x x' hx
+      refine foldlM_ok_induct (formStep norm c e) (fun _ b b' => b'.entries = b.entries) ?_ ?_ _ x x' hx
+      · intro b; rfl
+      · intro a t b b1 b' hf' _ ih'
+        exact ih'.trans (formStep_entries norm c e b b1 a hf')
+    cases hx : e.external with
+    | true =>
+      simp only [hx, Bool.not_true, Bool.false_eq_true, if_false, pure, Except.pure] at hf
+      exact hfold b b1 hf
+    | false =>
+      simp only [hx, Bool.not_false, if_true] at hf
+      cases hl : e.lemma with
+      | none => simp [hl, need] at hf
+      | some lem =>
+        simp only [hl, need] at hf
+        cases he : entryRow b e.id (c.lid e.id) with
+        | none => simp [he] at hf
+        | some er =>
+          simp only [he] at hf
+          cases ha : addForm b norm c.lexid er none lem.form lem.script 0 with
+          | error x => simp [ha] at hf
+          | ok b2 =>
+            simp only [ha] at hf
+            exact (hfold b2 b1 hf).trans (addForm_entries _ _ _ _ _ _ _ _ _ ha)
+
+end WnVerif.Db
